@@ -26,6 +26,10 @@ def directed_cases():
             cases.append(("soup", {"cls": cls}, "d:soup:%s" % cls))
     for k in range(10):
         cases.append(("method", {"cls": "SmoothStronglyConvexFunction", "mode": "single", "box": True}, "d:ssc%d" % k))
+    # the same models in other units: a constraint multiplied by 1e9 / 1e6 / 1e-4 (multipliers of 1e-9 ... 1e4)
+    for k, sc in enumerate([1e9, 1e9, 1e6, 1e-4, 1e9, 1e3]):
+        cases.append(("method", {"cls": ["SmoothStronglyConvexFunction", "SmoothConvexFunction", "ConvexLipschitzFunction"][k % 3],
+                                 "mode": "single", "ic_scale": sc, "ic": "dist"}, "d:scaled%d" % k))
     cases.append(("big", {"N": 11}, "d:big"))
     for cls in CLASSES:
         for variant in (0, 1):
